@@ -4,11 +4,12 @@
 #   ./seedtool.sh detect <dir-with-patch.diff> <prop> [<prop>...] run the quick checks against a scratch copy with the patch applied
 # Scratch worktree and build output live under /tmp/mut and are removed by `./seedtool.sh clean`.
 set -u
-WT=/tmp/mut/wt
-VT=/tmp/mut/vt
+R=${MUT_ROOT:-/tmp/mut}
+WT=$R/wt
+VT=$R/vt
 ensure_wt() {
   if [ ! -d "$WT" ]; then
-    mkdir -p /tmp/mut
+    mkdir -p $R
     git -C /repo worktree add --detach "$WT" HEAD >/dev/null 2>&1
     cp -r /repo/target "$WT/target" 2>/dev/null
   fi
@@ -22,17 +23,17 @@ case "$1" in
   if ! git -C "$WT" apply "$d/patch.diff"; then echo "RESULT $2: patch does not apply"; exit 1; fi
   (cd "$WT" && cargo test --workspace --no-fail-fast --offline 2>&1 | grep -E "^test result" | awk '{p+=$4; f+=$6} END {print "suite with patch: passed="p" failed="f}')
   (cd "$WT" && cargo build --offline >/dev/null 2>&1)
-  bash "$d/demo.sh" "$WT" >/tmp/mut/demo_with.log 2>&1; with=$?
+  bash "$d/demo.sh" "$WT" >$R/demo_with.log 2>&1; with=$?
   git -C "$WT" checkout -q -- .
   (cd "$WT" && cargo build --offline >/dev/null 2>&1)
-  bash "$d/demo.sh" "$WT" >/tmp/mut/demo_without.log 2>&1; without=$?
+  bash "$d/demo.sh" "$WT" >$R/demo_without.log 2>&1; without=$?
   echo "RESULT $2: demo with patch exit=$with (want !=0), without exit=$without (want 0)"
   ;;
  detect)
   d=$(realpath "$2"); shift 2; ensure_wt
   if ! git -C "$WT" apply "$d/patch.diff"; then echo "patch does not apply"; exit 1; fi
   for p in "$@"; do
-    out=$(VERIF_SUBJECT=$WT VERIF_TARGET_DIR=$VT VERIF_EVIDENCE_DIR=/tmp/mut/evidence VERIF_REPLAY_DIR=/tmp/mut/replays /verif/check "$p" "${TIER:-quick}" 2>&1); rc=$?
+    out=$(VERIF_SUBJECT=$WT VERIF_TARGET_DIR=$VT VERIF_EVIDENCE_DIR=$R/evidence VERIF_REPLAY_DIR=$R/replays /verif/check "$p" "${TIER:-quick}" 2>&1); rc=$?
     echo "DETECT $(basename $d) $p rc=$rc $(echo "$out" | grep -c '^VIOLATION') violation lines"
     echo "$out" | grep -E '^(VIOLATION|MACHINERY)' | head -3
     if [ $rc = 1 ]; then f=$(echo "$out" | grep -m1 '^VIOLATION' | sed 's/.*replay=//'); python3 -c "
@@ -42,6 +43,6 @@ d=json.load(open('$f')); print('   ',d['clause'],'|',d['signature'][:150]); prin
   git -C "$WT" checkout -q -- .
   ;;
  clean)
-  git -C /repo worktree remove --force "$WT" 2>/dev/null; rm -rf /tmp/mut; git -C /repo worktree prune
+  git -C /repo worktree remove --force "$WT" 2>/dev/null; rm -rf $R; git -C /repo worktree prune
   ;;
 esac
